@@ -29,6 +29,7 @@ def _init(pid, repo):
     os.environ['OMP_NUM_THREADS'] = '1'
     os.environ['MKL_NUM_THREADS'] = '1'
     import symtorch
+    os.environ['VERIF_REPO_DIR'] = repo
     symtorch.load(real=True, repo=repo)
     _H = importlib.import_module('harness.' + pid)
 
@@ -49,8 +50,28 @@ def _work(cfg):
         signal.alarm(budget)
     except Exception:
         pass
+    traced = None
+    _work.count = getattr(_work, 'count', 0) + 1
+    if _work.count % 20 == 1:
+        # every 20th configuration of a worker runs under a profiler hook that records which functions of the
+        # repository were actually entered (evidence: functions_encoded)
+        traced = set()
+        repo_dir = os.path.join(os.environ.get('VERIF_REPO_DIR', '/repo'), 'pytorch_wavelets')
+
+        def _prof(frame, event, arg):
+            if event == 'call':
+                fn = frame.f_code.co_filename
+                if fn.startswith(repo_dir):
+                    traced.add(fn[len(repo_dir) - len('pytorch_wavelets'):-3].replace('/', '.') + '.' + getattr(frame.f_code, 'co_qualname', frame.f_code.co_name))
+        sys.setprofile(_prof)
     try:
-        r = _H.run_config(cfg)
+        try:
+            r = _H.run_config(cfg)
+        finally:
+            if traced is not None:
+                sys.setprofile(None)
+        if traced:
+            r.funcs = sorted(set(r.funcs) | traced)
         d = r.to_dict()
     except _Budget:
         r = Result(cfg)
